@@ -100,8 +100,10 @@ func (r *Run) Anchor(rule, symbol string) {
 	r.add(rule, "ANCHOR-UNRESOLVED "+symbol, token.NoPos, Violated, "the symbol the rule is anchored on no longer resolves; the rule cannot be decided")
 }
 
-func (r *Run) Note(format string, a ...any)       { r.notes = append(r.notes, fmt.Sprintf(format, a...)) }
-func (r *Run) NotCovered(format string, a ...any) { r.notCov = append(r.notCov, fmt.Sprintf(format, a...)) }
+func (r *Run) Note(format string, a ...any) { r.notes = append(r.notes, fmt.Sprintf(format, a...)) }
+func (r *Run) NotCovered(format string, a ...any) {
+	r.notCov = append(r.notCov, fmt.Sprintf(format, a...))
+}
 
 // ---- known findings --------------------------------------------------------------------
 
